@@ -794,6 +794,65 @@ func TestVerifC05(t *testing.T) {
 		w.check("u2f-finish:expired-challenge-after-webauthn-begin", presented, w.adopt(sy, r2), 0, "")
 		rep.Count("expired_challenge_checked", 2)
 	})
+	// S4c: the request is authenticated by one user's TLS client certificate while the session cookie attached to it
+	// is another user's: whatever factor the certificate's owner proves, the other user's session must not gain it
+	scenario("client-certificate-of-a-with-cookie-of-b", func() {
+		a, b := w.newUser("s4ca", true), w.newUser("s4cb", true)
+		users := map[string]*c05User{a.Name: a, b.Name: b}
+		_ = users
+		key := verifUserECKey()
+		leaf := verifMakeLeaf(a.Name, key.Public(), w.env.UserCACert(), verifSigner("ca_rsa2048"), time.Now().Add(-time.Hour), time.Now().Add(time.Hour), nil)
+		cs := w.env.TLSFor(leaf)
+		if cs == nil {
+			rep.Inconc("client-certificate scenario: the certificate does not verify")
+			return
+		}
+		type step struct {
+			name string
+			mk   func(sb *c05Session) verifReq
+		}
+		steps := []step{
+			{"totp", func(sb *c05Session) verifReq {
+				return verifReq{Method: "POST", Path: "/api/v0/TOTPAuth", Form: url.Values{"OTP": {verifTOTPCode(a.Secret, time.Now())}}}
+			}},
+			{"vip-otp", func(sb *c05Session) verifReq {
+				return verifReq{Method: "POST", Path: "/api/v0/vipAuth", Form: url.Values{"OTP": {fmt.Sprintf("%06d", a.VIPOTP)}}}
+			}},
+		}
+		for _, st := range steps {
+			sb := &c05Session{}
+			w.login(sb, b, true)
+			presented := sb.Auth
+			q := st.mk(sb)
+			q.Cookies = w.cookies(sb, nil)
+			q.TLS = cs
+			time.Sleep(2100 * time.Millisecond) // the owner's own limiter spacing
+			r := w.do(q)
+			w.log("%s(certificate of %s, cookie of %s, factor of %s)=%d", st.name, a.Name, b.Name, a.Name, r.Code)
+			w.rep.Eval(fmt.Sprintf("mixed-credentials|%s|%d", st.name, r.Code))
+			w.rep.Count("mixed_credential_requests", 1)
+			w.check("client-certificate-of-a-cookie-of-b:"+st.name, presented, w.adopt(sb, r), 0, "")
+		}
+		// hardware token: A's certificate starts and finishes a ceremony with A's token while B's cookie rides along
+		sb := &c05Session{}
+		w.login(sb, b, true)
+		presented := sb.Auth
+		r0 := w.do(verifReq{Method: "GET", Path: "/u2f/SignRequest", Cookies: w.cookies(sb, nil), TLS: cs})
+		var req struct {
+			AppID     string `json:"appId"`
+			Challenge string `json:"challenge"`
+		}
+		if r0.Code == 200 && json.Unmarshal(r0.Body, &req) == nil && req.Challenge != "" {
+			body, _ := jsonMarshal(a.Token.SignResponse(req.AppID, req.Challenge))
+			r := w.do(verifReq{Method: "POST", Path: "/u2f/SignResponse", RawBody: body, RawCT: "application/json", Cookies: w.cookies(sb, nil), TLS: cs})
+			w.log("u2f(certificate of %s, cookie of %s, token of %s)=%d", a.Name, b.Name, a.Name, r.Code)
+			w.rep.Eval(fmt.Sprintf("mixed-credentials|u2f|%d", r.Code))
+			w.rep.Count("mixed_credential_requests", 1)
+			w.check("client-certificate-of-a-cookie-of-b:u2f", presented, w.adopt(sb, r), 0, "")
+		} else {
+			w.rep.Eval(fmt.Sprintf("mixed-credentials|u2f-begin|%d", r0.Code))
+		}
+	})
 	// S5: bootstrap OTP: other user's, own, reused, expired
 	scenario("bootstrap", func() {
 		c, d, e := w.newUser("s5c", false), w.newUser("s5d", false), w.newUser("s5e", false)
@@ -891,7 +950,7 @@ func TestVerifC05(t *testing.T) {
 	// ---- seeded random walks ---------------------------------------------------
 	nPairs, steps := 4, 500
 	if verifThorough() {
-		nPairs, steps = 12, 1500
+		nPairs, steps = 24, 3000
 	}
 	for pi := 0; pi < nPairs; pi++ {
 		pi := pi
@@ -973,8 +1032,9 @@ func TestVerifC05(t *testing.T) {
 	rep.Floor("webauthn_honoured", 1)
 	rep.Floor("expired_challenge_checked", 1)
 	rep.Floor("totp_replay_next_step_checked", 1)
-	rep.Floor("scenarios_completed", 10+nPairs)
+	rep.Floor("scenarios_completed", 11+nPairs)
 	rep.Floor("slow_read_scenarios", 1)
+	rep.Floor("mixed_credential_requests", 2)
 	rep.Floor("two_cookie_requests", 6)
 	rep.Floor("storage_fault_scenarios", 1)
 	rep.Assume("Okta OTP/push level upgrades are exercised in C17's Okta deployment for redirects only; the push service, directory-less password backend and hardware tokens are local fakes / soft tokens")
